@@ -7,6 +7,10 @@ git pull -q --no-edit /tmp/wk-$B/verif $b 2>&1 | tail -1
 U=$(git diff --name-only --diff-filter=U)
 echo "conflicts: $U"
 if echo "$U" | grep -q known_findings; then tools/merge_kf.py; fi
+# the builders' branches still carry the old prune_kf.py with an inline `gone` set: keep ours, absorb theirs
+git show MERGE_HEAD:tools/prune_kf.py > /tmp/their_prune.py 2>/dev/null || git show FETCH_HEAD:tools/prune_kf.py > /tmp/their_prune.py
+git checkout --ours tools/prune_kf.py 2>/dev/null; git checkout HEAD -- tools/prune_kf.py 2>/dev/null
+python3 tools/prune_kf.py --absorb /tmp/their_prune.py >/dev/null
 for f in $(echo "$U" | grep -E "evidence|tools/claims/|lean/obligations/"); do git checkout --theirs $f; done
 tools/prune_kf.py; python3 tools/gen_manifest.py
 git add -A; git commit -qm "merge $B from sub-agent branch" -q
